@@ -169,3 +169,28 @@ fn so2_interp_convex_half_circle() {
     sp.interpolate(&a, &b, t, &mut o);
     assert!(o.value >= sp.bounds.0 - 1e-9 && o.value <= sp.bounds.1 + 1e-9);
 }
+
+// ---------------------------------------------------------------- C10 on a lattice of special values (BOUNDED: the listed values only)
+// seam crossings, exactly antipodal angles, multiples of PI/2, t in {0, 1/8, 1/2, 7/8, 1}: end points, distance law,
+// canonical form and reversal symmetry interp(a,b,t) ~ interp(b,a,1-t)
+fn ang_close(x: f64, y: f64) -> bool { let d = (x - y).abs(); d <= 1e-9 || (d - 2.0 * PI).abs() <= 1e-9 }
+#[kani::proof]
+#[kani::unwind(8)]
+#[kani::stub(f64::rem_euclid, rem_euclid_model)]
+fn so2_interp_lattice() {
+    let sp = SO2StateSpace::new(None).unwrap();
+    let vals = [0.0, PI / 2.0, -PI / 2.0, PI, -PI, 3.0, -3.0];
+    let ts = [0.0, 0.125, 0.5, 0.875, 1.0];
+    let i: usize = kani::any(); let j: usize = kani::any(); let k: usize = kani::any();
+    kani::assume(i < 7 && j < 7 && k < 5);
+    let (a, b, t) = (SO2State { value: vals[i] }, SO2State { value: vals[j] }, ts[k]);
+    let mut o = a.clone();
+    sp.interpolate(&a, &b, t, &mut o);
+    assert!(canon(o.value));
+    let dab = sp.distance(&a, &b);
+    assert!((sp.distance(&a, &o) - t * dab).abs() <= 1e-9);               // distance from a is t * d(a,b)
+    assert!((sp.distance(&o, &b) - (1.0 - t) * dab).abs() <= 1e-9);       // distance from b is (1-t) * d(a,b)
+    let mut r = b.clone();
+    sp.interpolate(&b, &a, 1.0 - t, &mut r);
+    assert!(ang_close(o.value, r.value));                                  // same configuration from the other end
+}
